@@ -470,7 +470,7 @@ def _mkfield(eng, i, kind, wide, g, floatmode):
     return X.SymFloat(m * z3.RealVal(Fraction(10) ** e), hint=e)
 
 
-def k3_fn(writer, nmax, floatmode, kinds_pattern=None):
+def k3_fn(writer, nmax, floatmode, kinds_pattern=None, longname=False):
     """writer in wtcard8/wtcard16/wtcard16d; number of fields symbolic in 1..nmax;
     kinds symbolic per field (kinds_pattern None) or a fixed cyclic pattern;
     floatmode 'real': the real formatter renders floats; 'token': the formatter is
@@ -499,7 +499,7 @@ def k3_fn(writer, nmax, floatmode, kinds_pattern=None):
         g[fmtname] = fmt_rec
         try:
             n = eng.fork_int(z3.Int("nfields"), 1, nmax)
-            name = "CARD*" if wide else "CARD"
+            name = ("CARDNAM*" if longname else "CARD*") if wide else ("CARDNAM8" if longname else "CARD")
             fields = [name]
             kinds = []
             for i in range(n):
@@ -512,7 +512,7 @@ def k3_fn(writer, nmax, floatmode, kinds_pattern=None):
             sink = _Sink()
             g[writer](sink, fields)
             lines = sink.lines()
-            info = dict(writer=writer, n=n, kinds=kinds, floatmode=floatmode)
+            info = dict(writer=writer, n=n, kinds=kinds, floatmode=floatmode, longname=longname)
             obls = []
             for ln in lines:
                 obls.append(E.Obl("%s: line length <= 80" % writer, len(X._cells(ln)) - 1 <= (72 + 8), info=info))
@@ -597,7 +597,8 @@ def replay_card(p):
     mdl = p["model"]
     writer, n, kinds = p["writer"], p["n"], p["kinds"]
     wide = writer != "wtcard8"
-    name = "CARD*" if wide else "CARD"
+    longname = p.get("longname", False)
+    name = ("CARDNAM*" if longname else "CARD*") if wide else ("CARDNAM8" if longname else "CARD")
     fields = [name]
     for i, kd in enumerate(kinds[:n]):
         if kd == 0:
@@ -640,19 +641,19 @@ def replay_card(p):
     return False, "card round trip fine on the real code"
 
 
-def job_k3(writer, nmax, floatmode, pattern, split_depth=None, roots=None):
+def job_k3(writer, nmax, floatmode, pattern, split_depth=None, roots=None, longname=False):
     eng = E.Engine()
     eng.fast_ms = 200
-    res = eng.explore(k3_fn(writer, nmax, floatmode, pattern), max_cex=3, roots=roots, split_depth=split_depth)
+    res = eng.explore(k3_fn(writer, nmax, floatmode, pattern, longname), max_cex=3, roots=roots, split_depth=split_depth)
     res["note"] = "%s up to %d fields, floats=%s, kinds=%s" % (writer, nmax, floatmode, pattern or "symbolic")
     if split_depth is not None and res["roots"]:
         rs = res.pop("roots")
-        res["spawn"] = [("card-%s-%s-sub%d" % (writer, floatmode, i), job_k3, (writer, nmax, floatmode, pattern), dict(roots=rs[i::16])) for i in range(16) if rs[i::16]]
+        res["spawn"] = [("card-%s-%s-sub%d" % (writer, floatmode, i), job_k3, (writer, nmax, floatmode, pattern), dict(roots=rs[i::16], longname=longname)) for i in range(16) if rs[i::16]]
     res["roots"] = []
 
     def payload(c):
         info = (c.get("info") or [{}])[0]
-        return dict(writer=writer, n=info.get("n", 1), kinds=info.get("kinds", [0]), model=c["model"])
+        return dict(writer=writer, n=info.get("n", 1), kinds=info.get("kinds", [0]), model=c["model"], longname=longname)
     H.triage(res, "card", replay_card, payload)
     return res
 
@@ -669,6 +670,7 @@ def jobs(tier, seed):
         out.append(H.Job("card-%s-symkinds" % w, job_k3, w, 3 if q else 5, "token", None, split_depth=4, weight=60))
         out.append(H.Job("card-%s-real" % w, job_k3, w, 2, "real", None, weight=80))
         out.append(H.Job("card-%s-long" % w, job_k3, w, 18 if q else 60, "token", (3, 2, 0, 1, 2, 3, 0), weight=60))
-        out.append(H.Job("card-%s-long2" % w, job_k3, w, 17 if q else 33, "token", (2, 0, 0, 3, 1), weight=60))
+        out.append(H.Job("card-%s-long2" % w, job_k3, w, 17 if q else 33, "token", (2, 0, 0, 3, 1), weight=60, longname=True))
+        out.append(H.Job("card-%s-symkinds-longname" % w, job_k3, w, 2 if q else 4, "token", None, weight=30, longname=True))
     out.append(H.Job("card-wtcard8-bigint", job_k3, "wtcard8", 1, "bigint", (2,), weight=10))
     return out
